@@ -26,6 +26,7 @@ package asm
 
 //@ func writeSym
 //@   serves C16, C14
+//@   safety[C14]
 //@   requires w != nil
 //@   modifies bufStr[refOf(w)]
 //@   ensures @sym len(s) <= 255 ==> result1 == nil && buf(w) == old(buf(w)) + chr(len(s)) + s
@@ -34,6 +35,7 @@ package asm
 // an integer argument: one length byte, then the big-endian bytes without leading zeros (0 is 01 00)
 //@ func writeSize
 //@   serves C16, C14
+//@   safety[C14]
 //@   requires w != nil
 //@   modifies bufStr[refOf(w)]
 //@   ensures @ok result1 == nil
